@@ -80,7 +80,7 @@ var c15BlockPtr = &bcl.Block{Type: "in", Fields: map[string]any{"x": 1}}
 // a Binding implemented by embedding the interface
 type wrapBinding struct{ bcl.Binding }
 
-var c15Keys = []string{"x", "X", "y", "foo_bar", "in", "in.p", "emb", "z", "Name", "name"}
+var c15Keys = []string{"x", "X", "y", "foo_bar", "in", "in.p", "emb", "z", "Name", "name", "żądło"}
 
 func c15Bindings(quick bool) []namedBinding {
 	var out []namedBinding
@@ -319,6 +319,20 @@ func c15Targets() []namedTarget {
 		type T struct {
 			A, B, C int
 			D       int `bcl:"x"`
+		}
+		return &T{}
+	})
+	add("*T{żądło;Y}", func() any { // an unexported field whose name does not start with an ASCII letter
+		type T struct {
+			żądło int
+			Y     int
+		}
+		return &T{żądło: 1}
+	})
+	add("*T{Żądło;δ}", func() any {
+		type T struct {
+			Żądło int
+			δ     string
 		}
 		return &T{}
 	})
@@ -828,7 +842,7 @@ func init() {
 	fw.Register(&fw.Check{
 		ID:    "C15",
 		Level: "model_checking",
-		Rule: "bindings built directly as Go values (nil, struct binding, slice bindings of 0-2 blocks; blocks with <=2 fields over 10 keys {x X y foo_bar in in.p emb z Name name} and 17 values {int, float, string, bool, nil, int32, nested blocks named/unnamed/deep, a block with a nil Fields map, struct values that are not Blocks (struct{}, time.Time, a user struct, a type derived from Block), *Block, a slice, a map}; pointers (nil and not) to the binding types and wrappers embedding the Binding interface) crossed with ~1000 targets (nil, non-pointers, nil pointers, pointer to pointer, pointers to every Go kind, slices of non-structs and of pointers, hand-declared structs with embedded / embedded-pointer / unexported / tagged / colliding fields, generated structs with 1-2 fields over 20 field kinds). " +
+		Rule: "bindings built directly as Go values (nil, struct binding, slice bindings of 0-2 blocks; blocks with <=2 fields over 11 keys {x X y foo_bar in in.p emb z Name name żądło} and 17 values {int, float, string, bool, nil, int32, nested blocks named/unnamed/deep, a block with a nil Fields map, struct values that are not Blocks (struct{}, time.Time, a user struct, a type derived from Block), *Block, a slice, a map}; pointers (nil and not) to the binding types and wrappers embedding the Binding interface) crossed with ~1000 targets (nil, non-pointers, nil pointers, pointer to pointer, pointers to every Go kind, slices of non-structs and of pointers, hand-declared structs with embedded / embedded-pointer / unexported / tagged / colliding fields, generated structs with 1-2 fields over 20 field kinds). " +
 			"For each pair EVERY map iteration order of every range-over-map inside Bind is explored through the map-order choice point of the rewritten package. Oracle on every order: never panics; nil only if an independent matcher finds every key (and the name) stored unchanged in a distinct exported assignable field; on error a slice target is unchanged; fully storable plain cases must succeed. Plus every history of 2 (thorough 3) Bind calls over three distinct struct types that print the same name but differ in layout and tags (state carried between calls).",
 		Subs:           []*fw.Sub{subC15, subC15Hist},
 		BudgetQuick:    100,
